@@ -812,7 +812,15 @@ def r17_2_key_named(ctx):
                     # in the `else:` of a loop the loop variable holds whatever alternative was tried last, not the attribute
                     if isinstance(lo, ast.For) and any(x is c for st in lo.body for x in ast.walk(st)):
                         loopvars |= {x.id for x in ast.walk(lo.target) if isinstance(x, ast.Name)}
-                r.check(a0 in loopvars, '%s: %s(%s, ..) names the attribute under judgement' % (fi.qual, call_name(c), a0),
+                # ... or the text of the first key node that fails the same test (`[kn for kn, _ in node.value if kn.value not in allowed][0].value`)
+                via_list = False
+                e0 = c.args[0]
+                if isinstance(e0, ast.Attribute) and e0.attr == 'value' and isinstance(e0.value, ast.Subscript) and isinstance(e0.value.slice, ast.Constant) \
+                        and e0.value.slice.value == 0:
+                    lst = e0.value.value
+                    srcs = [lst] if not isinstance(lst, ast.Name) else assigned_from(f, lst.id)
+                    via_list = bool(srcs) and all(_offending_key_list(x) for x in srcs)
+                r.check(a0 in loopvars or via_list, '%s: %s(%s, ..) names the attribute under judgement' % (fi.qual, call_name(c), a0),
                         '%s:diagnose-arg:%s' % (fi.key, call_name(c)), fi.loc(c), '%s is called with %s, not the attribute/key being checked' % (call_name(c), a0))
     # which node's mark is cited
     f = fn(P, S.CTOR + '__type_check_attributes')
@@ -828,6 +836,11 @@ def r17_2_key_named(ctx):
         ok = bool(recvs)
         for e in recvs:
             good = False
+            if isinstance(e, ast.Subscript) and isinstance(e.value, ast.Name) and isinstance(e.slice, ast.Constant) and e.slice.value == 0 \
+                    and which == 0:
+                # the first of the offending key nodes, collected into a list first
+                srcs = assigned_from(f, e.value.id)
+                good = bool(srcs) and all(_offending_key_list(x, nodep) for x in srcs)
             if isinstance(e, ast.Subscript) and isinstance(e.value, ast.ListComp) and isinstance(e.slice, ast.Constant) and e.slice.value == 0:
                 lc = e.value
                 g = lc.generators[0]
@@ -841,6 +854,22 @@ def r17_2_key_named(ctx):
         r.check(ok, '__type_check_attributes: %s' % what, f.key('cited-node:%s' % ('key' if which == 0 else 'value')), f.loc(rs),
                 'the %s error cites the position of another node than the %s node' % ('extraneous-key' if which == 0 else 'attribute-type', 'key' if which == 0 else 'value'))
     r.done()
+
+
+def _offending_key_list(x: ast.AST, nodep: Optional[str] = None) -> bool:
+    """`[kn for kn, _ in <node>.value if kn.value not in <allowed names>]` (or `== key`): the key nodes that fail the test, in document order"""
+    if not (isinstance(x, ast.ListComp) and len(x.generators) == 1):
+        return False
+    g = x.generators[0]
+    if not (isinstance(g.target, ast.Tuple) and len(g.target.elts) == 2 and norm(x.elt) == norm(g.target.elts[0]) and len(g.ifs) == 1):
+        return False
+    if nodep is not None and norm(g.iter) != '%s.value' % nodep:
+        return False
+    if not norm(g.iter).endswith('.value'):
+        return False
+    t = g.ifs[0]
+    return isinstance(t, ast.Compare) and len(t.ops) == 1 and isinstance(t.ops[0], (ast.NotIn, ast.Eq)) \
+        and norm(t.left) == '%s.value' % norm(g.target.elts[0])
 
 
 def mark_sources(f: Fn, use: ast.AST, e: ast.AST, depth: int = 4) -> Set[str]:
